@@ -139,12 +139,14 @@ def stream_ok(g, first, directed):
 
 
 PATTERNS = {2: ["AA", "Aa", "AB", "Ba"], 3: ["AAA", "AaA", "AAB", "ABA", "ABa", "BAA", "ABB"],
-            4: ["AAAA", "AaBA", "ABAB", "AABB", "ABBa", "BAAA"]}
+            4: ["AAAA", "AaBA", "ABAB"]}
 for directed in (False, True):
     for recip in ((False, True) if directed else (False,)):
         for k in (2, 3, 4):
             for pattern in PATTERNS[k]:
                 if directed and pattern != pattern.upper():
+                    continue
+                if k == 4 and directed and not recip:
                     continue
                 for obs in (True, False):
                     if obs and k > 3:
